@@ -1,2 +1,2 @@
 (* proofs/LatticeProofs.v - C18: entry point of the lattice proofs (re-exports the layers). *)
-From TF Require Export LatticeBase LatticeNtt LatticeModule LatticeKem LatticeKemNoise LatticeExamples.
+From TF Require Export LatticeBase LatticeNtt LatticeModule LatticeExplicit LatticeKem LatticeKemNoise LatticeExamples.
